@@ -30,7 +30,7 @@ def prime():
 
 def gen(rng, idx, tier):
     pad = rng.choice(["rand", "rand", 0xFF, None])
-    ev = bustraffic.history(rng, pad=pad, all_defs=rng.random() < 0.6, multi_def_bias=True)
+    ev = bustraffic.history(rng, pad=pad, all_defs=rng.random() < 0.6, multi_def_bias=True, repeat_seq=rng.random() < 0.4)
     return {"events": ev}
 
 
